@@ -16,7 +16,7 @@ ALPHABET = ["{", "}", "\"", ",", "=", "\n", "\\", "@a", "@comment", "@string", "
             "\\\n", "k", "1"]
 
 NPROC = min(16, os.cpu_count() or 1)
-_SUFFIX = 4          # tokens enumerated inside one chunk (alphabet**_SUFFIX texts per task)
+_SUFFIX = 4          # at most this many tokens are enumerated inside one chunk (alphabet**k texts per task)
 _JOB = None          # (fn, alphabet, suffix_len), inherited by the forked workers
 
 
@@ -47,11 +47,13 @@ def scan(fn, alphabet, maxlen, minlen=0, nproc=NPROC):
     """Yield (text, fn(text)) for every token sequence of minlen..maxlen tokens, smallest first."""
     global _JOB
     for length in range(minlen, maxlen + 1):
-        if length <= _SUFFIX or nproc <= 1:
+        if nproc <= 1 or len(alphabet) ** length < 20000:
             for text in seqs(alphabet, length):
                 yield text, fn(text)
             continue
-        k = _SUFFIX
+        k = min(_SUFFIX, length - 1)       # chunk = all k-token extensions of one prefix; keep >= 64 chunks when possible
+        while k > 1 and len(alphabet) ** (length - k) < 64:
+            k -= 1
         _JOB = (fn, alphabet, k)
         prefixes = list(seqs(alphabet, length - k))
         pool = multiprocessing.get_context("fork").Pool(min(nproc, len(prefixes)))
